@@ -57,7 +57,7 @@ def parseDec (j : Json) : Dec :=
 
 def parseHdr (j : Json) : Hdr :=
   { name := getStr j "name", required := getBool j "required", schema := parseOSch j "schema",
-    objDec := parseDec (getD j "dec" .null) }
+    explode := getBool j "explode", emptyNameDec := parseDec (getD j "dec" .null) }
 
 mutual
 partial def jOfJ : J → Json
@@ -172,7 +172,13 @@ def handle (j : Json) : Json :=
        (if (checkedHeaders r).length > 1 then ["hdr.many"] else []) ++
        ((checkedHeaders r).flatMap (fun h => match h.schema, hdrDec canon i.hdrs h with
           | some s, some d =>
-            decBranch s d ++
+            decBranch s d ++ (if h.explode then ["hdr.explode"] else []) ++
+            (match s.core.ty, lookup (canon h.name) i.hdrs with
+             | .object, some raw =>
+               (match propsFromString h.explode raw with
+                | some pairs => if emptyNameCorner s pairs then ["dec.empty_name_corner"] else []
+                | none => ["dec.obj_malformed"])
+             | _, _ => []) ++
             (match d with
              | .val v => if visit ⟨true, o.woOff⟩ v s != visit ⟨false, o.woOff⟩ v s then ["hdr.asrep_matters"] else []
              | _ => [])
